@@ -22,13 +22,14 @@ def plan(tier, seed):
 
 
 def thresholds(tier):
-  t = {"designs": 150, "constraint_orders_checked_after_replacement": 500, "inverted_pair_values_checked": 60, "ordered_pairs_checked": 3000, "discriminating_stale_read_comparisons": 1000, "passes_checked": 5000,
+  t = {"designs": 150, "constraint_orders_checked_after_replacement": 500, "inverted_pair_values_checked": 60, "openloop_method_orders_with_both_ends_passed_through": 100, "ordered_pairs_checked": 3000, "discriminating_stale_read_comparisons": 1000, "passes_checked": 5000,
        "designs_with_pairs": 100, "rejections_checked": 16, "rejections_beside_a_legal_loop": 40, "opened_cycle_controls_accepted": 16, "greenlet_orderings_checked": 2000, "greenlet_designs": 60, "explicit_constraints_checked": 2000, "method_orderings_checked": 1500, "method_designs_with_required_orders": 80}
   if tier == "thorough":
     t = {k: v * 15 for k, v in t.items()}
     t["rejections_checked"] = 100          # the rejection streams have a fixed size per shard
     t["rejections_beside_a_legal_loop"] = 40; t["opened_cycle_controls_accepted"] = 16
     t["constraint_orders_checked_after_replacement"] = 500; t["inverted_pair_values_checked"] = 60
+    t["openloop_method_orders_with_both_ends_passed_through"] = 1000
   return t
 
 
@@ -238,6 +239,125 @@ def check_constraints_after_replace(sh, rng):
             sh.violation("inverted-writer-reader-pair-sampled-the-new-value" + ("-after-replacement" if how != "untouched" else ""),
                          {"how": how, "mode": mode, "snap": int(top.snap), "expected_old_value": (3 + k) & 0xff, "source": src})
             return
+  finally:
+    G.unload(mod)
+
+
+OPENLOOP_M_SRC = """
+from pymtl3 import *
+class Inner(Component):
+  def construct(s, order):
+    s.log = []
+    s.add_constraints( *[ M(getattr(s, f'm{a}')) < M(getattr(s, f'm{b}')) for a, b in zip(order, order[1:]) ] )
+  @non_blocking(lambda s: True)
+  def m0(s): s.log.append(0)
+  @non_blocking(lambda s: True)
+  def m1(s): s.log.append(1)
+  @non_blocking(lambda s: True)
+  def m2(s): s.log.append(2)
+  @non_blocking(lambda s: True)
+  def m3(s): s.log.append(3)
+  def line_trace(s): return ""
+class Through(Component):
+  @non_blocking(lambda s: s.real.rdy())
+  def m(s, *a): return s.real(*a)
+  def construct(s):
+    s.real = CallerIfcCL()
+    s.add_constraints( M(s.m) == M(s.real) )
+class OTop(Component):
+  def construct(s, order, hops):
+    s.inner = Inner(order)
+    s.c = [CalleeIfcCL() for _ in range(4)]
+    s.t = [[Through() for _ in range(h)] for h in hops]
+    for i in range(4):
+      prev = s.c[i]
+      for t in s.t[i]:
+        t.m //= prev; prev = t.real
+      connect(getattr(s.inner, f'm{i}'), prev)
+  def line_trace(s): return ""
+"""
+
+
+def run_openloop_methods(sh, case):
+  """open-loop (method-driven) simulation: the top level callees reach the methods of an inner component directly or through one or
+  two pass-through components that declare M(m) == M(real).  For M(a) < M(b) declared inside, calling a() and then b() at the top
+  fits into ONE cycle under every random tie-break of the open-loop scheduler; the reverse order needs the next cycle"""
+  import random as _random
+  from pymtl3.passes.autotick.OpenLoopCLPass import OpenLoopCLPass
+  from pymtl3.passes.sim.GenDAGPass import GenDAGPass
+  rng = sh.rng("openloop-m", case)
+  order = rng.sample(range(4), rng.randrange(2, 5))
+  hops = [rng.choice([0, 1, 1, 2]) for _ in range(4)]
+  mod = G.load_source(OPENLOOP_M_SRC, "c02olm")
+  try:
+    for tb in range(4):
+      _random.seed(rng.getrandbits(30))          # the scheduler shuffles unordered vertices with the global generator
+      for (a, b) in zip(order, order[1:]):
+        try:
+          top = mod.OTop(order, hops); top.elaborate()
+          top.apply(GenDAGPass()); top.apply(OpenLoopCLPass(print_line_trace=False)); top.sim_reset()
+        except Exception as e:
+          sh.inconclusive("openloop-method-harness:" + type(e).__name__); return
+        c0 = top.sim_cycle_count(); top.c[a](); top.c[b]()
+        fwd = top.sim_cycle_count() - c0
+        sh.count("openloop_method_orders_checked")
+        if hops[a] and hops[b]: sh.count("openloop_method_orders_with_both_ends_passed_through")
+        if fwd != 0 or top.inner.log[-2:] != [a, b]:
+          sh.violation("explicit-method-constraint-not-honoured-by-the-open-loop-schedule", {"required": f"M(m{a}) < M(m{b})", "pass_throughs": {f"m{i}": hops[i] for i in range(4)},
+                       "extra_cycles_between_the_two_calls": fwd, "inner_log": top.inner.log[-4:], "declared_chain": order, "source": OPENLOOP_M_SRC}, case=("openloop-m", case)); return
+        c1 = top.sim_cycle_count(); top.c[b](); top.c[a]()
+        if top.sim_cycle_count() - c1 > 0: sh.count("openloop_reverse_order_needed_a_new_cycle")
+  finally:
+    G.unload(mod)
+
+
+NETINV_SRC = """
+from pymtl3 import *
+class Stage(Component):
+  def construct(s):
+    s.in_ = InPort(8); s.out = OutPort(8)
+    @update
+    def up_stage():
+      s.out @= s.in_ + 1
+class NTop(Component):
+  def construct(s, on):
+    s.in_ = InPort(8); s.out = OutPort(8); s.snap = OutPort(8)
+    s.stage = Stage()
+    s.stage.in_ //= s.in_
+    s.out //= s.stage.out
+    @update
+    def up_sample():
+      s.snap @= s.out
+    s.add_constraints( U(up_sample) < WR(s.out if on == 'net-reader' else s.stage.out) )
+"""
+
+
+def run_net_inversion_probe(sh):
+  """probe stream for the listed finding F-C9: an explicit inversion U(blk) < WR(s.out) on a signal that is driven through a net of
+  whole signals"""
+  import random as _random
+  rng = sh.rng("netinv")
+  mod = G.load_source(NETINV_SRC, "c02netinv")
+  try:
+    for on in ("net-reader",):          # ( the control - an inverted pair whose reader reads the written signal itself - is check_constraints_after_replace )
+      wrong = []
+      for mode in PASS_MODES:
+        for tb in range(6):
+          _random.seed(rng.getrandbits(30))
+          top = mod.NTop(on)
+          try: simmon.apply_mode(top, mode, rng)
+          except Exception as e:
+            sh.inconclusive("net-inversion-probe-harness:" + type(e).__name__); return
+          for val in (5, 9, 77):
+            old = int(top.out); top.in_ @= val; top.sim_eval_combinational()
+            sh.count("inverted_pair_values_checked")
+            if int(top.snap) != old: wrong.append((mode, val, old, int(top.snap)))
+      sh.count("net_inversion_probes")
+      if wrong:
+        sh.violation("inverted-writer-reader-pair-sampled-the-new-value", {"constraint": "U(up_sample) < WR(" + ("s.out" if on == "net-reader" else "s.stage.out") + ")",
+                     "wrong_samples(mode, input, old, sampled)": wrong[:6], "n_wrong": len(wrong), "source": NETINV_SRC},
+                     mechanism="inversion-on-a-net-reader-defeated-by-signal-aliasing" if on == "net-reader" else None, case=("netinv", on))
+      elif on == "writer": sh.count("net_inversion_probe_control_ok")
   finally:
     G.unload(mod)
 
@@ -555,3 +675,5 @@ def run_shard(sh):
     check_rejection(sh, rng)
     check_chained(sh, rng)
     check_constraints_after_replace(sh, rng)
+    if sh.idx == 1: run_net_inversion_probe(sh)
+    for oc in range(3 if sh.tier == 'quick' else 30): run_openloop_methods(sh, sh.idx * 100 + oc)
